@@ -344,6 +344,10 @@ def classify(status, rec, closes):
 def check_job(world, ev, before, rec, after, model, out, jobinfo):
     """CORR (model prediction vs real post-state) and the monitors for one job."""
     from lib import mon_c19 as mon
+    if ev.get('e') == 'job_api' and ev.get('kind') == 'eval_pr':
+        # POST /api/pull-requests/<id>: its handler builds the pull-request job of that id - the same event, to the
+        # model and to the statement, as a webhook about that pull request
+        ev = {'e': 'job_pr', 'pr': int(ev.get('args', {}).get('pr_id', 0)), 'via_api': True}
     status = rec.get('status')
     obs = {k: list(v) for k, v in OBS.items()}
     reset_obs()
